@@ -68,7 +68,8 @@ class Node(object):
         from pysyncobj.transport import TCPTransport
         from pysyncobj.node import TCPNode
         h = self.h
-        conf = SyncObjConf(autoTick=False, connectionTimeout=3.5, connectionRetryTime=h.retry, tcp_keepalive=(16, 3, 5) if h.keepalive else None)
+        conf = SyncObjConf(autoTick=False, connectionTimeout=3.5, connectionRetryTime=h.retry, tcp_keepalive=(16, 3, 5) if h.keepalive else None,
+                           recvBufferSize=h.rbuf)
         self.so = StubSyncObj(h.kern, self.name, conf)
         h.kern.current = self.name
         self.selfnode = TCPNode(h.addr[self.name])
@@ -118,6 +119,7 @@ class Harness(object):
             self.kern.host2proc['10.0.0.%d' % (i + 1)] = n
         self.keepalive = case['keepalive']
         self.retry = case['retry']
+        self.rbuf = case.get('rbuf', 8192)
         self.viol = []
         self.counters = collections.Counter()
         self.probes_got = collections.Counter()
@@ -190,6 +192,7 @@ def strategy(tier):
     step = st.tuples(st.integers(0, len(OPS) - 1), st.integers(0, 7), st.integers(0, 7)).map(list)
     return st.fixed_dictionaries({
         'n': st.integers(2, 4), 'keepalive': st.booleans(), 'retry': st.sampled_from([0.0, 0.5, 5.0]),
+        'rbuf': st.sampled_from([8192, 8192, 64, 5]),       # small receive buffers: a frame is read in many pieces, faults hit the middle of frames
         'steps': st.integers(1, 120 if tier == 'quick' else 200).flatmap(lambda n: st.lists(step, min_size=n, max_size=n)),
     })
 
